@@ -14,6 +14,7 @@ import json
 import os
 import time
 from .. import core
+from . import _gen
 
 LEVEL = "proof"
 EXPLANATION = ("Coq theorems over Loops/Model.v (split, tree spawn, spawner, micro-step queue-loop cursors for every schedule) + "
@@ -314,6 +315,7 @@ def evaluate(cs, status, il, ml, mism, ofail, stats):
 def run(ctx):
     rng = ctx.rng
     quick = ctx.tier == "quick"
+    _gen.regen(ctx, ["Qloop"])      # Gen/*.v regenerated from the source + Properties_Gen_*.v (tools/ctrans.py)
     pr = ctx.coq_properties("Properties/Properties_C12.v")
     exe = ctx.link("c12_loops", ["c12_loops.c"], exclude=["qloop.c"])
     drv = ctx.model_driver("c12_driver")
